@@ -102,15 +102,17 @@ package storage
 //@ -- TxShapeOK: the stored transaction came out of the decoder (non-nil inputs/outputs, an empty Genesis is nil) and was admitted by Validate (OnlySpecial).
 //@ spec TxShapeOK(ver *common.VersionedTransaction) bool = ver != nil && len(ver.Inputs) >= 1 && common.InputsOK(&ver.SignedTransaction.Transaction) && common.OutputsOK(&ver.SignedTransaction.Transaction) &&
 //@     common.OnlySpecial(&ver.SignedTransaction.Transaction) && (forall j int :: 0 <= j && j < len(ver.Inputs) ==> common.NilIfEmpty(ver.Inputs[j].Genesis))
-//@ -- TotalPre (C16): what makes writeTotalInAsset panic-free: the asset is known, amounts are positive, the new total stays within the capacity,
-//@ -- and a withdrawal submission never takes more than the recorded total (the latter is C17's invariant: total == sum of unconsumed outputs).
-//@ spec TotalPre(t badger.Txn, ver *common.VersionedTransaction) bool = HasAssetInfo(t, ver.Asset) &&
+//@ -- TotalPre (C16): what makes writeTotalInAsset panic-free: the asset is known (HasAssetInfo) and the total admits the transaction
+//@ -- (TotalAdmits): amounts are positive, the new total stays within the capacity, and a withdrawal submission never takes more than the
+//@ -- recorded total (the latter is C17's invariant: total == sum of unconsumed outputs).
+//@ spec TotalAdmits(t badger.Txn, ver *common.VersionedTransaction) bool =
 //@     (common.DepositShape(&ver.SignedTransaction.Transaction) ==> val(ver.Inputs[0].Deposit.Amount) > 0 && TotalOf(t, ver.Asset) + val(ver.Inputs[0].Deposit.Amount) <= common.CapacityOf(ver.Asset)) &&
 //@     (common.MintShape(&ver.SignedTransaction.Transaction) ==> val(ver.Inputs[0].Mint.Amount) > 0 && TotalOf(t, ver.Asset) + val(ver.Inputs[0].Mint.Amount) <= common.CapacityOf(ver.Asset)) &&
 //@     (common.GenesisShape(&ver.SignedTransaction.Transaction) ==> (forall i int :: 0 <= i && i < len(ver.Outputs) ==> val(ver.Outputs[i].Amount) > 0) &&
 //@          (forall i int :: 0 <= i && i <= len(ver.Outputs) ==> TotalOf(t, ver.Asset) + common.SumOut(ver.Outputs, i) <= common.CapacityOf(ver.Asset))) &&
 //@     (common.PlainInputs(&ver.SignedTransaction.Transaction) ==> (forall i int :: 0 <= i && i < len(ver.Outputs) && ver.Outputs[i].Type == common.OutputTypeWithdrawalSubmit ==> val(ver.Outputs[i].Amount) > 0) &&
 //@          (forall i int :: 0 <= i && i <= len(ver.Outputs) ==> common.SumSubmit(ver.Outputs, i) <= TotalOf(t, ver.Asset)) && TotalOf(t, ver.Asset) <= common.CapacityOf(ver.Asset))
+//@ spec TotalPre(t badger.Txn, ver *common.VersionedTransaction) bool = HasAssetInfo(t, ver.Asset) && TotalAdmits(t, ver)
 //@ func writeTotalInAsset
 //@   property C17, C16, C15
 //@   requires txn != nil && TxShapeOK(ver)
@@ -136,3 +138,40 @@ package storage
 //@   loop 0 invariant [unfold] rangeindex + 1 < len(ver.Outputs) ==> common.SumSubmit(ver.Outputs, rangeindex + 2) == common.SumSubmit(ver.Outputs, rangeindex + 1) + (ver.Outputs[rangeindex + 1].Type == common.OutputTypeWithdrawalSubmit ? val(ver.Outputs[rangeindex + 1].Amount) : 0)
 //@   loop 1 invariant [unfold] rangeindex + 1 < len(ver.Outputs) ==> common.SumOut(ver.Outputs, rangeindex + 2) == common.SumOut(ver.Outputs, rangeindex + 1) + val(ver.Outputs[rangeindex + 1].Amount)
 //@   loop 1 invariant [running] val(total) == old(TotalOf(*txn, ver.Asset)) + common.SumOut(ver.Outputs, rangeindex + 1) && val(total) >= 0
+
+//@ -- ═════════ badger_transaction.go: finalizeTransaction ═════════
+//@ spec SnapOK(snap *common.SnapshotWithTopologicalOrder) bool = snap != nil && snap.Snapshot != nil && snap.Version == common.SnapshotVersionCommonEncoding
+//@ -- StoredTxOK: the shape of a transaction read back from TRANSACTION/<h>: it came out of the decoder (non-nil elements, counts within
+//@ -- the decoder limits) and had passed Validate when it was stored (OnlySpecial; a withdrawal claim carries its reference), plus the
+//@ -- typing facts the engine needs (objects reachable from ver exist before the call; a *crypto.Key never points at the hash cache).
+//@ spec StoredTxOK(ver *common.VersionedTransaction) bool = TxShapeOK(ver) && len(ver.Outputs) <= common.SliceCountLimit && !fresh(ver.Outputs) && !fresh(ver.Inputs) &&
+//@     (forall j int :: {ver.Inputs[j]} 0 <= j && j < len(ver.Inputs) ==> !fresh(ver.Inputs[j])) &&
+//@     (forall a int :: {ver.Outputs[a]} 0 <= a && a < len(ver.Outputs) ==> !fresh(ver.Outputs[a]) && !fresh(ver.Outputs[a].Keys) &&
+//@         (ver.Outputs[a].Type == common.OutputTypeWithdrawalClaim ==> len(ver.References) >= 1) &&
+//@         forall i int :: {ver.Outputs[a].Keys[i]} 0 <= i && i < len(ver.Outputs[a].Keys) ==> ver.Outputs[a].Keys[i] != nil && !fresh(ver.Outputs[a].Keys[i]) && ver.Outputs[a].Keys[i] != &ver.hash)
+//@ -- FinalizePre (C16): sufficient for "finalizeTransaction does not panic": every output type is known, the asset is known (or the
+//@ -- transaction is a deposit, which registers it), and the asset total admits the transaction.
+//@ spec FinalizePre(t badger.Txn, ver *common.VersionedTransaction) bool =
+//@     (forall i int :: 0 <= i && i < len(ver.Outputs) ==> common.KnownOutType(ver.Outputs[i].Type)) &&
+//@     (ver.Inputs[0].Deposit == nil ==> HasAssetInfo(t, ver.Asset)) && TotalAdmits(t, ver)
+//@ func finalizeTransaction
+//@   property C15, C16, C17
+//@   trustpre PayloadHash -- payload well-formedness and the Debug self-check belong to C06
+//@   requires txn != nil && SnapOK(snap) && StoredTxOK(ver)
+//@   nopanic when FinalizePre(*txn, ver)
+//@   modifies *txn, ver.hash, ver.pmbytes
+//@   ensures [hash] ver.hash.HasValue() && (old(ver.hash.HasValue()) ==> ver.hash == old(ver.hash))
+//@   ensures [idempotent] let h == ver.hash in old(Finalized(*txn, h)) ==> *txn == old(*txn) && (err == nil || badger.iofail(err)) -- nothing is written, no output or total is re-applied; the only possible error is the store's own failure to read the record
+//@   ensures [fin-record] let h == ver.hash in !old(Finalized(*txn, h)) && err == nil ==> badger.kvget(*txn, FK(h)) == common.SnapId(snap.Snapshot)
+//@   ensures [finalized] err == nil ==> Finalized(*txn, ver.hash)
+//@   ensures [first-wins] forall k mathint :: {badger.kvget(*txn, k)} keykind(k) == 6 && old(badger.kvget(*txn, k)) != 0 ==> badger.kvget(*txn, k) == old(badger.kvget(*txn, k))
+//@   ensures [frame] let h == ver.hash in forall k mathint :: {badger.kvget(*txn, k)} badger.kvget(*txn, k) != old(badger.kvget(*txn, k)) ==>
+//@       k == FK(h) || k == AIK(ver.Asset) || k == ATK(ver.Asset) || keykind(k) == 2 || (keykind(k) == 1 && keyhid(k) == kvval(h)) || keykind(k) == 14 || keykind(k) == 15 || keykind(k) == 16
+//@   loop 0 invariant [hash] ver.hash.HasValue() && (old(ver.hash.HasValue()) ==> ver.hash == old(ver.hash))
+//@   loop 0 invariant [shape] TxShapeOK(ver)
+//@   loop 0 invariant [utxos] forall j int :: {rangeexpr[j]} 0 <= j && j < len(rangeexpr) ==> fresh(rangeexpr[j]) && allocated(rangeexpr[j]) && common.UtxoOf(rangeexpr[j], ver)
+//@   loop 0 invariant [was-new] let h == ver.hash in old(badger.kvget(*txn, FK(h))) == 0
+//@   loop 0 invariant [fin] badger.kvget(*txn, FK(ver.hash)) == common.SnapId(snap.Snapshot) && badger.kvget(*txn, FK(ver.hash)) != 0
+//@   loop 0 invariant [frame] let h == ver.hash in forall k mathint :: {badger.kvget(*txn, k)} badger.kvget(*txn, k) != old(badger.kvget(*txn, k)) ==>
+//@       k == FK(h) || k == AIK(ver.Asset) || keykind(k) == 2 || (keykind(k) == 1 && keyhid(k) == kvval(h)) || keykind(k) == 14 || keykind(k) == 15 || keykind(k) == 16
+//@   loop 0 invariant [info] (ver.Inputs[0].Deposit != nil ==> HasAssetInfo(*txn, ver.Asset)) && (ver.Inputs[0].Deposit == nil ==> badger.kvget(*txn, AIK(ver.Asset)) == old(badger.kvget(*txn, AIK(ver.Asset))))
